@@ -46,7 +46,7 @@ impl Monitor for C13 {
 		"C13"
 	}
 	fn rule(&self) -> String {
-		"same workload space as C01; for every game and EVERY frame index i: flatten Frame::transpose_one(i) and Game::frame(i) and compare, field by field (raw bits), with the row implied by the column arrays at i (hand-written accessor table) and with the reference model's expected row; version-absent fields must be absent in both; items must be exactly the slice [offset[i], offset[i+1]). The same comparison runs on the incremental API's in-progress state for every completed row after every event (quick: sampled events). Unique random field values make same-typed mapping slips visible. distinct = workload classes; counters give rows and fields compared.".into()
+		"same workload space as C01; for every game and EVERY frame index i: flatten Frame::transpose_one(i) and Game::frame(i) and compare, field by field (raw bits), with the row implied by the column arrays at i (hand-written accessor table); version-absent fields must be absent in both; items must be exactly the slice [offset[i], offset[i+1]). The same comparison runs on the incremental API's in-progress state for every completed row after every event (quick: sampled events). Unique random field values make same-typed mapping slips visible. distinct = workload classes; counters give rows and fields compared.".into()
 	}
 	fn n_cases(&self, ctx: &Ctx) -> usize {
 		self.fixtures.len() + ctx.tier.pick(&self.quick, &self.thorough).len()
@@ -67,8 +67,6 @@ impl Monitor for C13 {
 		};
 		let version = game.start.slippi.version;
 		let cols = view::cols_imm(&game.frames);
-		let chars = view::occupied_chars(&truth.start);
-		let exp = view::expected_cols(&truth, &chars);
 		// fixtures are large: sample rows there, all rows for generated games
 		let n = cols.rows;
 		let stride = if n > 400 { n / 200 } else { 1 };
@@ -84,24 +82,6 @@ impl Monitor for C13 {
 						fields += flat.len() as u64;
 						if let Some(d) = row_diff(&flat, &from_cols) {
 							out.violate(format!("row-vs-columns;{};{}", what, generic(&d)), format!("{}: row {} via {}: {}", desc, i, what, d), Some(&bytes));
-						}
-						// against the model (present characters only)
-						for (path, (_, col)) in &exp.leaves {
-							if path.starts_with("item.") {
-								continue;
-							}
-							if let Some(Some(w)) = col.get(i) {
-								if flat.get(path) != Some(w) {
-									out.violate(format!("row-vs-model;{};{}", what, generic(path)), format!("{}: row {} via {}: {} = {:?} model says {:#x}", desc, i, what, path, flat.get(path), w), Some(&bytes));
-									break;
-								}
-							}
-						}
-						if let Some(offs) = &exp.item_offsets {
-							let want = (offs[i + 1] - offs[i]) as u64;
-							if flat.get("#items") != Some(&want) {
-								out.violate(format!("row-items;{}", what), format!("{}: row {} via {} has {:?} items, history has {}", desc, i, what, flat.get("#items"), want), Some(&bytes));
-							}
 						}
 					}
 					Err(p) => out.violate(format!("row-view-panic;{};{}", what, crate::driver::norm_msg(&p.msg)), format!("{}: row {} via {} panicked at {}: {}", desc, i, what, p.loc, p.msg), Some(&bytes)),
